@@ -287,9 +287,10 @@ def add_monitor_failure(res, d, pid):
 
 def nontrivial(mon, fs):
     fs = set(fs)
+    hook = any(x.startswith("hook_in_") for x in fs)
     if mon == "c06":
-        return "fire_ok" in fs and bool(fs & {"fire_cancelled", "unexpected", "bytes_no_fire", "bytes_multi_fire", "lose", "fire_clientError", "raise_underflow"})
-    return bool(fs & {"resend", "backoff_fired", "close_with_pending", "lost_idle", "lost_down"})
+        return ("fire_ok" in fs or hook) and bool(fs & {"fire_cancelled", "unexpected", "bytes_no_fire", "bytes_multi_fire", "lose", "fire_clientError", "raise_underflow"})
+    return bool(fs & {"resend", "backoff_fired", "close_with_pending", "lost_idle", "lost_down"}) or hook
 
 
 def monitor_failure(d, pid):
@@ -308,16 +309,19 @@ def monitor_failure(d, pid):
         small, obs, r = events, d["obs"], {mon: d["verdict"]}
     v = r[mon] or d["verdict"]
     routing = bool(v) and v[0].startswith("routing ")
+    reentrant = bool(v) and v[0].startswith("reentrant ")
     w = v[0].split() if v else []
     at = int(w[-1]) if w and w[-1].isdigit() and "fail" in w else -1
     op = small[at].split()[0] if 0 <= at < len(small) else "?"
     what = "%s monitor rejects the implementation's trace at step %d (%s)" % (pid, at, small[at] if 0 <= at < len(small) else "?")
     if routing:
         what = "C06: a reply was delivered to a request other than the one it answers, at step %d (%s)" % (at, small[at] if 0 <= at < len(small) else "?")
+    if reentrant:
+        what = "%s (with re-entrant callbacks): the observation stream violates the property at step %d (%s)" % (pid, at, small[at] if 0 <= at < len(small) else "?")
     return {
         "what": what,
         "scenario": {"header": list(header), "events": small, "impl_observations": obs, "verdict": v},
-        "tags": ["%s-%s-%s" % (mon, "misrouted" if routing else "step", op)],
+        "tags": ["%s-%s-%s" % (mon, "misrouted" if routing else ("reentrant" if reentrant else "step"), op)],
     }
 
 
